@@ -6,6 +6,7 @@ import re
 GENERATORS = [
     ("rngcooked", "RngCooked.lean", []),
     ("pkgstate", "PackageState.lean", ["{repo}"]),
+    ("unicode", "Unicode.lean", []),
 ]
 
 
@@ -437,6 +438,36 @@ PROPERTIES = {
     "C03": runprop("vars", ("res", "v"), ("text",), 1500, 60000, nontrivial=lambda obs, case: sum(1 for o in obs if obs_kind(o) == "HSET") >= 1 and len({parse_run(o)["v"] for o in obs}) >= 3,
                    rule="run/vars: set/declare statements with every assignment operator over every pair of (current type or unset, assigned type), interleaved with host writes of same and other types; compared: result class and the complete variable contents after every operation; non-trivial = a host write and at least 3 distinct store contents",
                    leanchecker=["Ysgo.Props.C03"]),
+    "C04": runprop("lines", ("res",), ("text", "tags", "dis"), 1500, 60000, nontrivial=lambda obs, case: any(obs_kind(o) == "O" for o in obs) or sum(1 for o in obs if obs_kind(o) == "L") >= 3,
+                   extra_streams=[{"stream": "linelex", "profile": "all", "quick": 6000, "thorough": 150000, "nontrivial": lambda obs, case: not obs[0].startswith(("LOADERR", "ERR"))},
+                                  {"stream": "f64", "profile": "fmt", "quick": 9000, "thorough": 600000, "nontrivial": lambda obs, case: True}],
+                   rule="run/lines: lines and option groups over printable ASCII and multi-byte characters with every escapable character escaped or not, 0-2 inline expressions of each type incl. numbers exercising the display forms, tags, option conditions; compared: text, tags and Disabled of every element; linelex/all: line descriptions (first-character rule, escapes at every position class, expressions, tags, conditions, comments) through ANTLR vs the scanner model; f64/fmt: fmt.Sprint/ToString/ParseFloat vs the display model, bit for bit",
+                   leanchecker=["Ysgo.Props.C04", "Ysgo.Props.C04Lex", "Ysgo.Props.C04Display"]),
+    "C13": {
+        "level": "proof",
+        "streams": [{"stream": "markup", "profile": "chunks", "quick": 8000, "thorough": 300000, "predicate": no_panic,
+                     "spec_check": lambda io, spec, case: None, "nontrivial": lambda obs, case: obs[0].count("@") >= 2}],
+        "assumptions": ["unicode.IsSpace/IsLetter/IsDigit/ToLower are regenerated tables of the Go toolchain in use; regexp is modelled for the two fixed patterns only"],
+        "rule": "markup/chunks: chunk lists from the grammar of DESIGN C13 (text over ASCII, accented, CJK and astral characters with white space at every edge; escapes; open/close/close-all/self-closing markers with 0-3 properties of every value type, shorthand, nesting, overlap, repetition; nomarkup/select/plural/ordinal self-closing or closed by name) rendered to a line; compared: implementation = model exactly, and model = the parser-independent specification `expected` (line SPEC same); non-trivial = at least two attributes",
+        "leanchecker": ["Ysgo.Props.C13"],
+    },
+    "C14": {
+        "level": "proof",
+        "streams": [{"stream": "markup", "profile": "history", "quick": 6000, "thorough": 250000, "predicate": no_panic, "nontrivial": lambda obs, case: True},
+                    {"stream": "run", "profile": "markuprun", "quick": 800, "thorough": 30000, "project": project_run(("res",), ("text", "attrs")), "predicate": no_panic,
+                     "nontrivial": lambda obs, case: any("@" in o for o in obs), "shrink": shrink_ops}],
+        "assumptions": RUN_ASSUME,
+        "rule": "markup/history: a line parsed on one LineParser value after 0-5 earlier lines incl. failing ones, and on a fresh parser: identical results (text, attributes, positions, source positions); run/markuprun: lines with markup shown by a dialogue runner after different prefixes, attributes compared with the history-free model",
+        "leanchecker": ["Ysgo.Props.C14"],
+    },
+    "C15": {
+        "level": "proof",
+        "streams": [{"stream": "markup", "profile": "fuzz", "quick": 10000, "thorough": 500000, "predicate": no_panic, "nontrivial": lambda obs, case: obs[0].startswith("OK")},
+                    {"stream": "markup", "profile": "utf8", "quick": 3000, "thorough": 200000, "predicate": no_panic, "nontrivial": lambda obs, case: True}],
+        "assumptions": ["the tie between the model and the implementation on arbitrary bytes is sampled"],
+        "rule": "markup/fuzz: arbitrary byte strings incl. invalid UTF-8 and token-level assemblies of marker fragments ([ [/ /] = \" \\ names digits spaces); compared: outcome class, text, attributes, and TextForAttribute of every attribute (the enclosed text or PANIC); predicate: no panic; markup/utf8 ties the UTF-8 decoding model",
+        "leanchecker": ["Ysgo.Props.C15"],
+    },
     "C05": {
         "level": "proof",
         "streams": [{"stream": "load", "profile": "mixed", "quick": 1500, "thorough": 60000, "special": special_load},
@@ -461,6 +492,9 @@ PROPERTIES = {
                    rule="run/rand: programs rendering dice, random and random_range in lines, conditions and assignments over several seeds; the implementation must reproduce the pure model's random values bit for bit; plus the same cases re-executed in reverse order in a second process must give identical observations",
                    leanchecker=["Ysgo.Props.C09"]),
     "C10": runprop("cmds", ("res", "log"), ("text",), 1200, 50000,
+                   extra_streams=[{"stream": "wait", "profile": "duration", "quick": 5000, "thorough": 300000, "nontrivial": lambda obs, case: obs[0] not in ("0", "9223372036854775807")},
+                                  {"stream": "wait", "profile": "shape", "quick": 70, "thorough": 1500, "nontrivial": lambda obs, case: True, "timeout": 1800},
+                                  {"stream": "wait", "profile": "timing", "quick": 24, "thorough": 400, "nontrivial": lambda obs, case: True, "timeout": 1800}],
                    nontrivial=lambda obs, case: any(obs_kind(o) == "WAIT" for o in obs) and any(o.startswith("DONE") for o in obs),
                    rule="run/cmds: scripts with commands that complete on return, fail on return, or stay pending until the harness completes them with success or an error after any number of polls; compared: result class and the handler invocation log; non-trivial = a waiting answer and a later completion",
                    leanchecker=["Ysgo.Props.C10"]),
